@@ -312,6 +312,7 @@ func runC24(c *C) {
 	for _, in := range c.ReplayInputs() {
 		replayC24(c, rs, in)
 	}
+	stringStream(c, rs, oneC24)
 	n := c.N(24, 1500)
 	for _, r := range rs {
 		for i := 0; i < n && !c.Failed(); i++ {
